@@ -1142,7 +1142,13 @@ fn prune_verdict(l: &Loaded) -> PruneVerdict {
                 }
             }
             Err(info) => {
-                failures.push((format!("hint-resolution-panic:{}", panic_key(&info)), format!("{info} (mode {name})")));
+                // stable keys for the two known panic sites (the second message embeds field name and type)
+                let key = if info.contains("produced an invalid value when resolving @tag") {
+                    "panic@dynamic.rs:tag_produced_an_invalid_value".to_string()
+                } else {
+                    panic_key(&info)
+                };
+                failures.push((format!("hint-resolution-panic:{key}"), format!("{info} (mode {name})")));
             }
         }
     }
